@@ -132,6 +132,9 @@ func (b *blk) otherEOA(r *fw.Rand, s *sender) common.Address {
 func (b *blk) plainTarget(r *fw.Rand, s *sender) common.Address {
 	switch r.Intn(3) {
 	case 0:
+		if b.header.Coinbase == gen.AddrSink {
+			return b.e.freshAddr()
+		}
 		return gen.AddrSink
 	case 1:
 		return b.e.freshAddr()
@@ -180,7 +183,7 @@ func (b *blk) template(r *fw.Rand, name string, s *sender) (t tmpl, ok bool) {
 	case "transfer_self":
 		t.to, t.data, t.expect = addrp(S), mixBytes(r, dataLen(r)), expectOK
 	case "transfer_to_coinbase":
-		if b.hasCode(C) && C != gen.AddrSink {
+		if (b.hasCode(C) && C != gen.AddrSink) || isPrecompileAddr(C) {
 			return t, false
 		}
 		t.to, t.data, t.expect = addrp(C), mixBytes(r, dataLen(r)), expectOK
@@ -246,7 +249,9 @@ func (b *blk) template(r *fw.Rand, name string, s *sender) (t tmpl, ok bool) {
 		if r.Bool() {
 			tg = gen.AddrInvalid
 		}
-		t.to, t.data, t.ample, t.expect = addrp(gen.AddrForwarder), wordA(tg), 200000, expectOK
+		// the failing callee burns 63/64 of the gas: whether the forwarder can still
+		// write its flag depends on the rest
+		t.to, t.data, t.ample, t.expect = addrp(gen.AddrForwarder), wordA(tg), 200000, expectAny
 	case "forward_pay_role":
 		t.to, t.data, t.ample, t.expect, t.mayPay = addrp(gen.AddrForwarder), wordA(role()), 150000, expectOK, true
 	case "nested":
@@ -260,8 +265,11 @@ func (b *blk) template(r *fw.Rand, name string, s *sender) (t tmpl, ok bool) {
 		cands = append(cands,
 			tg{gen.AddrStore, gen.Cat(word(uint64(r.Intn(6))), word(uint64(r.Intn(3)))), "store"},
 			tg{addrClear, gen.Cat(word(uint64(r.Intn(clearSlots-4))), word(uint64(r.Range(1, 3))), word(0), word(uint64(r.Intn(100)))), "clear"},
-			tg{gen.AddrReverter, nil, "reverter"}, tg{gen.AddrInvalid, nil, "invalid"}, tg{gen.AddrSink, nil, "sink"},
+			tg{gen.AddrReverter, nil, "reverter"}, tg{gen.AddrInvalid, nil, "invalid"},
 		)
+		if C != gen.AddrSink {
+			cands = append(cands, tg{gen.AddrSink, nil, "sink"})
+		}
 		if b.hasCode(addrEffects2) {
 			m := uint64([]int{modeStop, modeRevert, modeInvalid, modeUnderflow}[r.Intn(4)])
 			cands = append(cands, tg{addrEffects2, effectsData(m, b.plainTarget(r, s)), "effects_" + modeNames[m]})
@@ -304,7 +312,7 @@ func (b *blk) template(r *fw.Rand, name string, s *sender) (t tmpl, ok bool) {
 		if r.Bool() {
 			init = gen.InitOOG()
 		}
-		t.to, t.data, t.ample, t.expect = addrp(gen.AddrFactory), init, 250000, expectOK
+		t.to, t.data, t.ample, t.expect = addrp(gen.AddrFactory), init, 250000, expectAny
 	case "selfdestruct", "selfdestruct_pay_role":
 		var live []common.Address
 		for _, sa := range b.e.w.Suiciders {
